@@ -354,6 +354,8 @@ func GetKeyAt(sortedKeys []string, size int64, pos int64, forward bool) string {
 
 // SearchData quiery the table based on the input
 func (t *Table) SearchData(input QueryInput) ([]map[string]*types.Item, map[string]*types.Item) {
+	verifYield("search")
+
 	items := []map[string]*types.Item{}
 	limit := input.Limit
 	exclusiveStartKey := input.ExclusiveStartKey
@@ -483,6 +485,8 @@ func (t *Table) matchKey(input QueryInput, item map[string]*types.Item) (interpr
 }
 
 func (t *Table) setItem(key string, item map[string]*types.Item) {
+	verifYield("setItem")
+
 	_, exists := t.Data[key]
 	t.Data[key] = item
 
@@ -536,6 +540,8 @@ func (t *Table) ValidateWriteKeys(item map[string]*types.Item, put bool) error {
 
 // Put puts items into table
 func (t *Table) Put(input *types.PutItemInput) (map[string]*types.Item, error) {
+	verifYield("put")
+
 	item := copyItem(input.Item)
 
 	key, err := t.KeySchema.GetKey(t.AttributesDef, input.Item)
@@ -584,6 +590,8 @@ func (t *Table) interpreterUpdate(input interpreter.UpdateInput) error {
 
 // Update updates an item in the table based on the input
 func (t *Table) Update(input *types.UpdateItemInput) (map[string]*types.Item, error) {
+	verifYield("update")
+
 	// update primary index
 	key, err := t.KeySchema.GetKey(t.AttributesDef, input.Key)
 	if err != nil {
@@ -657,6 +665,8 @@ func (t *Table) Update(input *types.UpdateItemInput) (map[string]*types.Item, er
 
 // Delete deletes an item in the table based on the input
 func (t *Table) Delete(input *types.DeleteItemInput) (map[string]*types.Item, error) {
+	verifYield("delete")
+
 	key, err := t.KeySchema.GetKey(t.AttributesDef, input.Key)
 	if err != nil {
 		return nil, types.NewError("ValidationException", err.Error(), nil)
